@@ -48,6 +48,11 @@ class Src:
             else:
                 self.obj, self.ftab = Table(key, schema="sch"), other.Table(key, schema="sch")
             self.aliased = False
+        elif shape == "aliased_quoted":
+            # an alias that contains the quote characters: declared and referenced under the same (escaped) spelling
+            # (an Oracle identifier cannot contain a double quote at all)
+            self.obj = Table("base_" + key).as_(key + ('q9`x' if Q.__name__ == "OracleQuery" else 'q"9`x'))
+            self.aliased = True
         elif shape == "aliased":
             # a table that was in use (hashed, compared, printed) before it was renamed: nothing memoised on the un-aliased
             # object may travel into the copy
@@ -110,6 +115,9 @@ def select_cases():
                     if foreign and n > 1:
                         continue
                     yield {"k": "select", "shapes": list(shapes), "combine": combine, "foreign": foreign}
+    for sh2 in ("plain", "aliased", "aliased_quoted"):
+        yield {"k": "select", "shapes": ["aliased_quoted", sh2], "combine": "join", "foreign": False}
+    yield {"k": "select", "shapes": ["aliased_quoted"], "combine": "from", "foreign": False}
     for tw in ("plain_twin", "schema_twin"):
         yield {"k": "select", "shapes": [tw], "combine": "from", "foreign": False}
         for sh2 in ("plain", "aliased", "subquery"):
@@ -281,6 +289,11 @@ def build(case, Q):
             q = q.where(Table("foreign1").field("foreign1__whr") == 2)
             exp["foreign1__whr"] = (True, "foreign1")
         q = q.groupby(*[s.f("grp") for s in srcs]).having(FN.Sum(srcs[-1].f("hav")) > 0).orderby(*[s.f("ord") for s in srcs])
+        # a term that is selected under an alias and also grouped / ordered by: where the dialect writes the expression instead
+        # of the alias, the expression is qualified like everywhere else
+        ga = lambda: (srcs[-1].f("galias") + 0).as_("ga1")  # noqa: E731
+        q = q.select(ga()).groupby(ga()).orderby(ga())
+        expect(srcs[-1:], ["galias"], multi)
         expect(srcs, ["sel", "whr", "grp", "ord", "on"], multi)
         if is_pg:
             # the dialect's own column list: DISTINCT ON (columns given as Field objects of their sources; a name given as a
